@@ -40,18 +40,20 @@ def invMod2kFullVartime (w a k : Nat) : Option Nat :=
 
 /-! ### `inv_mod2k_vartime` (constant-time in `self`, not in `k`) -/
 
-/-- `Uint::from_word(x_i).overflowing_shl_vartime(i)` — `none` iff `i ≥ BITS` (then `.expect` panics). -/
+/-- `Uint::from_word(x_i).overflowing_shl_vartime(i)` — `none` iff `i ≥ BITS`; the caller takes
+    `.unwrap_or(ZERO)` (since /repo 8dd1192; before, `.expect` panicked for `k > BITS`). -/
 def shlVartime (w xi i : Nat) : Option Nat :=
   if i < w then some ((xi * 2 ^ i) % 2 ^ w) else none
 
-/-- loop of `inv_mod2k_vartime`; `none` = the `expect("shift within range")` panic. -/
+/-- loop of `inv_mod2k_vartime` (never panics: always `some`; the `Option` is kept for the shape of
+    the statements). Rounds `i ≥ BITS` (only for `k > BITS`) do not contribute. -/
 def vtLoop (w a : Nat) : Nat → Nat → Nat → Nat → Option Nat
   | 0, _, x, _ => some x
   | fuel + 1, i, x, b =>
     let xi := b % 2
     let b1 := (if xi ≠ 0 then wsubW w b a else b) / 2   -- select(&b, &b.wrapping_sub(self), x_i).shr1()
     match shlVartime w xi i with
-    | none => none
+    | none => vtLoop w a fuel (i + 1) (x ||| 0) b1      -- .unwrap_or(Self::ZERO)
     | some sh => vtLoop w a fuel (i + 1) (x ||| sh) b1  -- x.bitor(&shifted)
 
 /-- `(value, is_some)`; outer `none` = panic. `is_some = (k == 0) | self.is_odd()`. -/
@@ -111,10 +113,10 @@ def invModWith (inv : Nat → Nat → Option Nat) (w a m : Nat) : R :=
   let a' := if aSome then mA.getD 0 else 0             -- maybe_a.unwrap_or(ZERO)
   let b' := if mB.2 then mB.1 else 0
   let sInv := invMod2k w s k
-  if !sInv.2 then R.panic else                         -- .expect("inverse mod 2^k exists")
+  let sInvV := if sInv.2 then sInv.1 else 0            -- .unwrap_or(Self::ZERO) (since /repo be88d84; before: .expect)
   let shifted := if k < w then 2 ^ k else 0            -- ONE.overflowing_shl(k).unwrap_or(ZERO)
   let mask := wsubW w shifted 1
-  let t := ((wsubW w b' a' * sInv.1) % 2 ^ w) &&& mask
+  let t := ((wsubW w b' a' * sInvV) % 2 ^ w) &&& mask
   let result := (a' + (s * t) % 2 ^ w) % 2 ^ w
   if isSome then R.some result else R.none
 
